@@ -737,7 +737,15 @@ func (c *cutter) doHuffman(isFirstBlock bool, lLengths []uint32, dLengths []uint
 			decodedLen += length
 
 		} else {
-			// It's the end-of-block.
+			// It's the end-of-block. If no previous symbol has passed the
+			// maxEncodedLen budget check below (which reserves room for this
+			// end-of-block code), check that the code itself fits.
+			if checkpointIndex < 0 {
+				encodedBits := 8*uint64(c.bits.index) - uint64(c.bits.nBits)
+				if encodedBits > 8*uint64(c.maxEncodedLen) {
+					break
+				}
+			}
 			return nil
 		}
 
